@@ -45,6 +45,11 @@ func (a *Allocator) toIndex(base net.IP) (uint, error) {
 	return uint(value), nil
 }
 
+// contains reports whether the 128-bit address ip lies inside the pool
+func (a *Allocator) contains(ip net.IP) bool {
+	return len(ip) == net.IPv6len && a.containing.IP.Equal(ip.Mask(a.containing.Mask))
+}
+
 func (a *Allocator) toPrefix(idx uint) (net.IP, error) {
 	return allocators.AddPrefixes(a.containing.IP, uint64(idx), uint64(a.page))
 }
@@ -63,8 +68,8 @@ func (a *Allocator) Allocate(hint net.IPNet) (ret net.IPNet, err error) {
 	// Try to allocate the requested prefix
 	a.l.Lock()
 	defer a.l.Unlock()
-	if hint.IP.To16() != nil && a.containing.Contains(hint.IP) {
-		idx, hintErr := a.toIndex(hint.IP)
+	if hintIP := hint.IP.To16(); a.contains(hintIP) {
+		idx, hintErr := a.toIndex(hintIP)
 		if hintErr == nil && !a.bitmap.Test(idx) {
 			a.bitmap.Set(idx)
 			ret.IP, err = a.toPrefix(idx)
